@@ -313,7 +313,8 @@ Section Term.
   Proof. unfold slot, list_slot_text. cbn [t_view v_matches v_off v_cy v_sel]. rewrite nth_error_skipn. reflexivity. Qed.
 
   Lemma print_list_at_ok t : tinv t -> coherent txt_of (t_matches t) ->
-    tinv (print_list_at c t) /\ fresh c (print_list_at c t) /\ t_view (print_list_at c t) = t_view t.
+    tinv (print_list_at c t) /\ fresh c (print_list_at c t) /\ t_view (print_list_at c t) = t_view t /\
+    firstn st (t_screen (print_list_at c t)) = firstn st (t_screen t).
   Proof.
     intros (Hs & Hp & Hf) Hm. destruct st_n as [Hsn HW].
     unfold print_list_at. fold st n W.
@@ -331,7 +332,7 @@ Section Term.
                                         (firstn st (t_prev t) ++ map fst seg' ++ skipn (st + n) (t_prev t))) = map snd seg').
     { unfold list_seg. cbn [set_draw t_screen]. fold st n. rewrite skipn_len_app by exact L1.
       apply firstn_len_app. rewrite map_length. lia. }
-    split; [|split].
+    split; [|split; [|split]].
     - unfold tinv. cbn [set_draw t_screen t_prev]. repeat split.
       + rewrite !app_length, map_length, skipn_length. lia.
       + rewrite !app_length, map_length, skipn_length. lia.
@@ -341,6 +342,7 @@ Section Term.
     - unfold fresh. rewrite E, D3, Hseg. apply map_ext. intros k.
       rewrite slot_is_spec. reflexivity.
     - reflexivity.
+    - cbn [set_draw t_screen]. apply firstn_len_app. exact L1.
   Qed.
 
   (* drawing above the list leaves the list area alone *)
@@ -355,7 +357,7 @@ Section Term.
 
   Lemma pl_le_st : prompt_lines c <= st. Proof. unfold st, list_start. lia. Qed.
   Lemma pl_pos : 1 <= prompt_lines c.
-  Proof. unfold prompt_lines. destruct (c_info c); try lia. destruct (c_sep c); lia. Qed.
+  Proof. unfold prompt_lines. destruct (c_info c); try lia; destruct (c_sep c); lia. Qed.
 
   Lemma print_prompt_ok t : tinv t -> tinv (print_prompt c t) /\ list_seg c (print_prompt c t) = list_seg c t.
   Proof.
@@ -368,7 +370,7 @@ Section Term.
     intros Ht. unfold print_info. pose proof pl_le_st as P1. pose proof pl_pos as P2.
     unfold prompt_lines in P1, P2.
     apply redraw_above_ok; auto; destruct (c_info c); try destruct (c_sep c);
-      try reflexivity; try apply upd_at_length; try (apply upd_at_skipn; lia).
+      try reflexivity; rewrite ?upd_at_length; try reflexivity; rewrite ?upd_at_skipn by lia; reflexivity.
   Qed.
   Lemma print_header_ok t : tinv t -> tinv (print_header c t) /\ list_seg c (print_header c t) = list_seg c t.
   Proof.
@@ -401,7 +403,7 @@ Section Term.
   Proof.
     intros Hm. unfold paint. fold W H.
     set (t0 := set_draw t (repeat (blank W) H) (repeat il_none H)).
-    destruct (print_list_at_ok t0 (blank_tinv t) Hm) as (A1 & A2 & A3).
+    destruct (print_list_at_ok t0 (blank_tinv t) Hm) as (A1 & A2 & A3 & _).
     destruct (print_prompt_ok _ A1) as (B1 & B2).
     destruct (print_info_ok _ B1) as (C1 & C2).
     destruct (print_header_ok _ C1) as (D1 & D2).
@@ -414,7 +416,7 @@ Section Term.
   Proof.
     intros Ht Hm. unfold print_list.
     destruct (constrain (length (t_matches t)) (max_items c) scroll_off_default (t_cy t) (t_off t)) as [cy off].
-    destruct (print_list_at_ok (set_scroll t cy off) Ht Hm) as (A1 & A2 & A3). auto.
+    destruct (print_list_at_ok (set_scroll t cy off) Ht Hm) as (A1 & A2 & A3 & _). auto.
   Qed.
   Lemma full_redraw_ok t : coherent txt_of (t_matches t) ->
     tinv (full_redraw c t) /\ fresh c (full_redraw c t) /\ t_matches (full_redraw c t) = t_matches t /\ t_sel (full_redraw c t) = t_sel t.
@@ -433,7 +435,7 @@ Section Term.
     tinv (step c t u) /\ fresh c (step c t u) /\ coherent txt_of (t_matches (step c t u)).
   Proof.
     intros Ht Hf Hm Hcov. unfold step, handle.
-    set (t1 := mkTerm (u_query u) (u_matches u) (u_total u) (u_cy u) (t_off t) (u_sel u) (t_screen t) (t_prev t)).
+    set (t1 := mkTerm (u_prompt u) (u_query u) (u_matches u) (u_total u) (u_cy u) (t_off t) (u_sel u) (t_screen t) (t_prev t)).
     assert (T1 : tinv t1) by exact Ht.
     assert (M1 : t_matches t1 = u_matches u) by reflexivity.
     (* stage invariant: tinv, matches coherent, and fresh unless a redraw is still to come *)
@@ -597,9 +599,9 @@ Proof. intros. split; [apply trunc_fits|]. split; [apply trunc_cut|apply trunc_l
    text fills the row, so the tail of a longer previous text survives: 12 columns, "30/30 (0)" then "1/30 (0)"
    leaves "1/30 (0))". *)
 Definition refute_cfg : cfg := mkCfg 12 8 LDefault IDefault true [] [] MAX_MULTI.
-Definition refute_v0 : view := mkView [] (map (fun i => (i, [97%Z])) (seq 0 30)) 30 0 0 [].
+Definition refute_v0 : view := mkView [GT; SP] [] (map (fun i => (i, [97%Z])) (seq 0 30)) 30 0 0 [].
 Definition refute_us : list upd :=
-  [mkUpd [49%Z; 49%Z] [(10, [97%Z])] 30 0 [] (mkReqs true true false true false)].
+  [mkUpd [GT; SP] [49%Z; 49%Z] [(10, [97%Z])] 30 0 [] (mkReqs true true false true false)].
 Theorem incremental_eq_full_refuted_proof :
   exists c v0 us, cfg_ok c /\ view_wf v0 /\
     hist_ok (fun _ => [97%Z]) c (start c v0) us /\
@@ -612,3 +614,922 @@ Proof.
     + unfold refute_us. cbn [hist_ok]. split; [repeat constructor|]. split; [left; reflexivity|exact I].
     + vm_compute. discriminate.
 Qed.
+
+(* ---------- the whole screen of a full redraw, in closed form ---------- *)
+Lemma upd_at_app_len {A} (pre : list A) x post f : upd_at (length pre) f (pre ++ x :: post) = pre ++ f x :: post.
+Proof. induction pre; cbn; congruence. Qed.
+Lemma pad_more x a k : length a <= x -> pad x a ++ repeat SP k = pad (x + k) a.
+Proof. intros H. unfold pad. rewrite <- app_assoc, repeat_app_len. do 2 f_equal. lia. Qed.
+Lemma pad_pad x a : length a <= x -> pad x (pad x a) = pad x a.
+Proof. intros H. unfold pad at 1. rewrite pad_length. replace (x - Nat.max x (length a)) with 0 by lia. cbn. apply app_nil_r. Qed.
+Lemma firstn_pad x w a : length a <= x -> x <= w -> firstn x (pad w a) = pad x a.
+Proof.
+  intros H1 H2. unfold pad. rewrite firstn_app, firstn_repeat, (firstn_all2 a) by lia. do 2 f_equal. lia.
+Qed.
+Lemma clear_pad w x a : length a <= x -> x <= w -> clear_from w x (pad w a) = pad w (pad x a).
+Proof.
+  intros H1 H2. unfold clear_from. rewrite firstn_pad by lia. unfold pad at 2. rewrite pad_length.
+  do 2 f_equal. lia.
+Qed.
+Lemma trim_msg_length maxw s : length (trim_msg maxw s) <= maxw.
+Proof.
+  unfold trim_msg. destruct (Nat.leb_spec (length s) maxw); [lia|].
+  rewrite app_length, firstn_length, repeat_length. lia.
+Qed.
+Lemma info_tail_length c maxw out : length (info_tail c maxw out) <= maxw + 1.
+Proof.
+  unfold info_tail. rewrite app_length. pose proof (trim_msg_length maxw out) as Ht.
+  destruct (Nat.ltb_spec 0 (maxw - length out - 1)); [|cbn; lia].
+  unfold trim_msg. destruct (Nat.leb_spec (length out) maxw); [|lia].
+  destruct (c_sep c); cbn [length]; rewrite ?app_length, ?repeat_length; cbn [length]; lia.
+Qed.
+
+Lemma header_from_app w hs : forall pre olds post, length olds = length hs ->
+  print_header_from w (length pre) hs (pre ++ olds ++ post) =
+  pre ++ map (fun h => pad w ([SP; SP] ++ trunc (w - 3) h)) hs ++ post.
+Proof.
+  induction hs as [|h hs IH]; intros pre olds post Hl; destruct olds as [|o os]; try discriminate; [reflexivity|].
+  cbn [print_header_from map app]. rewrite upd_at_app_len, clear0, put0_pad by (cbn; lia).
+  rewrite item_text_trunc.
+  set (X := pad w (SP :: SP :: trunc (w - 3) h)).
+  replace (pre ++ X :: os ++ post) with ((pre ++ [X]) ++ os ++ post) by (rewrite <- app_assoc; reflexivity).
+  replace (S (length pre)) with (length (pre ++ [X])) by (rewrite app_length; cbn; lia).
+  rewrite IH by (cbn in Hl; lia). rewrite <- app_assoc. reflexivity.
+Qed.
+
+Definition logical_rows (c : cfg) (v : view) : list row :=
+  prompt_row_text c v :: (if prompt_lines c =? 2 then [info_row_text c v] else []) ++
+  map (header_row_text c) (hdr_logical c) ++ map (list_slot_text c v) (seq 0 (max_items c)).
+
+Lemma hdr_logical_length c : length (hdr_logical c) = nheader c.
+Proof. unfold hdr_logical, nheader. rewrite app_length. destruct (c_layout c); now rewrite ?rev_length. Qed.
+
+Lemma prompt_clean w P q r : length P + 2 <= w ->
+  put 0 (item_text (w - 2) P ++ q) (clear_from w 0 r) = pad w (P ++ q).
+Proof.
+  intros H. rewrite clear0, put0_pad by (cbn; lia). rewrite item_text_trunc, trunc_fits by lia. reflexivity.
+Qed.
+
+(* the info printed on a freshly printed prompt line *)
+Lemma inline_on_clean c (v : view) : view_ok c v -> c_info c = IInline ->
+  (fun r => put (length (v_prompt v) + length (v_query v) + 1)
+     ([SP; LT; SP] ++ info_tail c (c_w c - (length (v_prompt v) + length (v_query v) + 1 + 3) - 1) (info_text c v))
+     (if c_sep c then r else clear_from (c_w c) (length (v_prompt v) + length (v_query v) + 1) r))
+    (pad (c_w c) (v_prompt v ++ v_query v)) = prompt_row_text c v.
+Proof.
+  intros [V1 V2] Hi. rewrite Hi in V2. unfold prompt_row_text. rewrite Hi.
+  unfold prompt_text in *. rewrite app_length in *.
+  set (pos := length (v_prompt v) + length (v_query v) + 1).
+  assert (Hl : length (v_prompt v ++ v_query v) <= pos) by (rewrite app_length; lia).
+  destruct (c_sep c).
+  - rewrite put_pad by lia. reflexivity.
+  - rewrite clear_pad by lia. rewrite put_pad by (rewrite ?pad_length; lia).
+    rewrite pad_pad by lia. reflexivity.
+Qed.
+
+Lemma inline_right_on_clean c (v : view) : view_ok c v -> c_info c = IInlineRight ->
+  let w := c_w c in let out := info_text c v in
+  let pos := length (v_prompt v) + length (v_query v) + 1 in
+  let newpos := Nat.max pos (w - length out - 3) in
+  let pos1 := if newpos <? w then S newpos else newpos in
+  let pos2 := if pos1 <? w - 1 then S pos1 else pos1 in
+  put pos (repeat SP (newpos - pos) ++ (if newpos <? w then [SP] else []) ++ (if pos1 <? w - 1 then [SP] else [])
+           ++ trim_msg (w - pos2 - 1) out) (pad w (v_prompt v ++ v_query v)) = prompt_row_text c v.
+Proof.
+  intros [V1 V2] Hi. rewrite Hi in V2. cbn zeta. unfold prompt_row_text, info_shown, inline_right_col. rewrite Hi.
+  set (out := info_text c v).
+  unfold prompt_text in *. rewrite app_length in *.
+  set (pt := v_prompt v ++ v_query v). set (w := c_w c) in *.
+  set (pos := length (v_prompt v) + length (v_query v) + 1).
+  set (newpos := Nat.max pos (w - length out - 3)).
+  assert (Hl : length pt <= pos) by (unfold pt; rewrite app_length; lia).
+  assert (Hn : newpos <= w - 3) by (unfold newpos; lia).
+  destruct (Nat.ltb_spec newpos w); [|lia].
+  destruct (Nat.ltb_spec (S newpos) (w - 1)); [|lia].
+  rewrite put_pad by lia.
+  change [SP] with (repeat SP 1). rewrite !app_assoc.
+  rewrite pad_more by lia. rewrite pad_more by lia. rewrite pad_more by lia.
+  replace (pos + (newpos - pos) + 1 + 1) with (S (S newpos)) by lia. reflexivity.
+Qed.
+
+Lemma dashes_row w r : length r = w -> 1 <= w -> put 0 (repeat DASH (w - 1) ++ [SP]) r = pad w (repeat DASH (w - 1)).
+Proof.
+  intros Hr Hw. rewrite (put0_any w) by (rewrite ?app_length, ?repeat_length; cbn; lia).
+  change [SP] with (repeat SP 1). apply pad_spaces. rewrite repeat_length. lia.
+Qed.
+
+Lemma paint_screen_term txt_of c t : cfg_ok c -> view_ok c (t_view t) -> coherent txt_of (t_matches t) ->
+  t_screen (paint c t) = logical_rows c (t_view t).
+Proof.
+  intros Hc Hv Hco. unfold paint.
+  set (t0 := set_draw t (repeat (blank (c_w c)) (c_h c)) (repeat il_none (c_h c))).
+  destruct (print_list_at_ok txt_of c Hc t0 (blank_tinv txt_of c Hc t) Hco) as ((L1 & _ & _) & Fr & Vw & Ab).
+  set (t1 := print_list_at c t0) in *.
+  destruct (st_n c Hc) as [Hsn HW]. destruct Hc as [H4 Hh].
+  assert (S1 : t_screen t1 = repeat (blank (c_w c)) (prompt_lines c) ++ repeat (blank (c_w c)) (nheader c)
+                              ++ map (list_slot_text c (t_view t)) (seq 0 (max_items c))).
+  { rewrite <- (firstn_skipn (list_start c) (t_screen t1)). rewrite Ab. cbn [t0 set_draw t_screen].
+    rewrite firstn_repeat, app_assoc, repeat_app_len. f_equal; [f_equal; unfold list_start in *; lia|].
+    unfold fresh, list_seg in Fr. rewrite firstn_all2 in Fr by (rewrite skipn_length; lia).
+    rewrite Fr, Vw. reflexivity. }
+  assert (E1 : t_view t1 = t_view t) by exact Vw.
+  clearbody t1. clear Fr Ab L1 Vw. clearbody t0.
+  destruct t1 as [p1 q1 m1 tot1 cy1 off1 sel1 scr1 prev1]. cbn [t_screen] in S1. subst scr1.
+  unfold t_view in E1. cbn [t_prompt t_query t_matches t_total t_cy t_off t_sel] in E1.
+  injection E1 as -> -> -> -> -> -> ->.
+  assert (Hb : length (blank (c_w c)) = c_w c) by (unfold blank; apply repeat_length).
+  assert (Hh2 : length (repeat (blank (c_w c)) (nheader c)) = length (hdr_logical c))
+    by (rewrite repeat_length, hdr_logical_length; reflexivity).
+  pose proof (inline_on_clean c (t_view t) Hv) as Hil. pose proof (inline_right_on_clean c (t_view t) Hv) as Hir.
+  destruct Hv as [V1 V2]. cbn [t_view v_prompt] in V1.
+  assert (HA2 : forall a b post, print_header_from (c_w c) 2 (hdr_logical c) (a :: b :: repeat (blank (c_w c)) (nheader c) ++ post)
+                 = a :: b :: map (header_row_text c) (hdr_logical c) ++ post)
+    by (intros a b post; exact (header_from_app (c_w c) (hdr_logical c) [a; b] _ post Hh2)).
+  assert (HA1 : forall a post, print_header_from (c_w c) 1 (hdr_logical c) (a :: repeat (blank (c_w c)) (nheader c) ++ post)
+                 = a :: map (header_row_text c) (hdr_logical c) ++ post)
+    by (intros a post; exact (header_from_app (c_w c) (hdr_logical c) [a] _ post Hh2)).
+  unfold logical_rows, print_header, print_info, print_prompt.
+  unfold t_view in *.
+  cbn [set_draw t_screen t_prompt t_query t_matches t_total t_cy t_off t_sel v_prompt v_query] in *.
+  unfold prompt_lines in *.
+  destruct (c_info c) eqn:Hi; [| |destruct (c_sep c) eqn:Hs|destruct (c_sep c) eqn:Hs];
+    cbn [repeat app upd_at Nat.eqb]; rewrite prompt_clean by exact V1.
+  - (* default *)
+    rewrite HA2. f_equal; [unfold prompt_row_text; now rewrite Hi|f_equal].
+    unfold info_row_text. rewrite Hi. destruct (c_sep c); rewrite ?clear0, ?(blank_pad (c_w c)), put0_pad by (cbn; lia); reflexivity.
+  - (* inline *)
+    rewrite HA1. f_equal. apply (Hil eq_refl).
+  - (* hidden, separator *)
+    rewrite HA2. f_equal; [unfold prompt_row_text; now rewrite Hi|f_equal].
+    unfold info_row_text. rewrite Hi. apply dashes_row; [exact Hb|lia].
+  - (* hidden, no separator *)
+    rewrite HA1. f_equal. unfold prompt_row_text. now rewrite Hi.
+  - (* inline-right, separator *)
+    specialize (Hir eq_refl). cbn zeta in Hir. rewrite Hir. rewrite HA2. f_equal. f_equal.
+    unfold info_row_text. rewrite Hi. apply dashes_row; [exact Hb|lia].
+  - (* inline-right, no separator *)
+    specialize (Hir eq_refl). cbn zeta in Hir. rewrite Hir. rewrite HA1. reflexivity.
+Qed.
+
+Theorem paint_screen_proof : forall c v, cfg_ok c -> view_ok c v -> view_wf v ->
+  t_screen (paint c (term_of_view v)) = logical_rows c v.
+Proof.
+  intros c v Hc Hv [txt_of Hco].
+  assert (Ev : t_view (term_of_view v) = v) by (destruct v; reflexivity).
+  rewrite <- Ev at 2. apply (paint_screen_term txt_of); auto; now rewrite Ev.
+Qed.
+
+(* ---------- width bound for every row ---------- *)
+Lemma In_firstn {A} (x : A) n l : In x (firstn n l) -> In x l.
+Proof. revert l; induction n; intros [|y l] H; cbn in *; try contradiction. destruct H; auto. Qed.
+Lemma In_skipn {A} (x : A) n l : In x (skipn n l) -> In x l.
+Proof. revert l; induction n; intros [|y l]; cbn; auto. Qed.
+
+Lemma physical_In c ls r : In r (physical c ls) -> In r ls.
+Proof.
+  unfold physical. destruct (c_layout c); intros Hin; auto.
+  - now apply in_rev.
+  - repeat (apply in_app_or in Hin as [Hin|Hin]).
+    + eapply In_skipn, In_firstn, Hin.
+    + eapply In_skipn, Hin.
+    + apply in_rev in Hin. eapply In_skipn, In_firstn, Hin.
+    + apply in_rev in Hin. eapply In_firstn, Hin.
+Qed.
+
+Lemma pad_exact w s : length s <= w -> length (pad w s) = w.
+Proof. intros H. rewrite pad_length. lia. Qed.
+
+Lemma prompt_row_length c v : cfg_ok c -> view_ok c v -> length (prompt_row_text c v) = c_w c.
+Proof.
+  intros [H4 _] [V1 V2]. unfold prompt_row_text, info_shown, inline_right_col.
+  destruct (c_info c); apply pad_exact; try lia.
+  - rewrite !app_length, pad_length. cbn [length].
+    pose proof (info_tail_length c (c_w c - (length (prompt_text v) + 1 + 3) - 1) (info_text c v)). lia.
+  - set (pos := length (prompt_text v) + 1). set (x := Nat.max pos (c_w c - length (info_text c v) - 3)).
+    assert (x <= c_w c - 3) by (unfold x, pos; lia).
+    destruct (Nat.ltb_spec x (c_w c)); [|lia]. destruct (Nat.ltb_spec (S x) (c_w c - 1)); [|lia].
+    rewrite app_length, pad_length.
+    pose proof (trim_msg_length (c_w c - S (S x) - 1) (info_text c v)). lia.
+Qed.
+Lemma info_row_length c v : cfg_ok c -> length (info_row_text c v) = c_w c.
+Proof.
+  intros [H4 _]. unfold info_row_text.
+  destruct (c_info c); try (unfold blank; now rewrite repeat_length); apply pad_exact; rewrite ?repeat_length; try lia.
+  cbn [app length]. pose proof (info_tail_length c (c_w c - 3) (info_text c v)). lia.
+Qed.
+Lemma header_row_length c h : cfg_ok c -> length (header_row_text c h) = c_w c.
+Proof.
+  intros [H4 _]. unfold header_row_text. apply pad_exact. cbn [app length].
+  pose proof (trunc_length (c_w c - 3) h). lia.
+Qed.
+Lemma list_slot_length c v i : cfg_ok c -> length (list_slot_text c v i) = c_w c.
+Proof.
+  intros [H4 _]. unfold list_slot_text. destruct (nth_error (v_matches v) (v_off v + i)); [|unfold blank; now rewrite repeat_length].
+  unfold item_row_text. apply pad_exact. cbn [app length]. pose proof (trunc_length (c_w c - 3) (snd p)). lia.
+Qed.
+
+(* width_bound: no row of the full render is wider (or narrower) than the window *)
+Theorem width_bound_proof : forall c v, cfg_ok c -> view_ok c v -> view_wf v ->
+  Forall (fun r => length r = c_w c) (render c v).
+Proof.
+  intros c v Hc Hv Hw. apply Forall_forall. intros r Hin. unfold render in Hin.
+  apply physical_In in Hin. rewrite (paint_screen_proof c v Hc Hv Hw) in Hin. unfold logical_rows in Hin.
+  destruct Hin as [<-|Hin]; [now apply prompt_row_length|].
+  repeat (apply in_app_or in Hin as [Hin|Hin]).
+  - destruct (prompt_lines c =? 2); [|contradiction]. destruct Hin as [<-|[]]. now apply info_row_length.
+  - apply in_map_iff in Hin as (h & <- & _). now apply header_row_length.
+  - apply in_map_iff in Hin as (i & <- & _). now apply list_slot_length.
+Qed.
+
+(* ---------- Terminal.move as a map from logical lines to window rows ---------- *)
+Definition phys (c : cfg) (y : nat) : nat :=
+  match c_layout c with
+  | LDefault => c_h c - 1 - y
+  | LReverse => y
+  | LReverseList =>
+      let pl := prompt_lines c in let n0 := length (c_header c) in let n1 := length (c_hlines c) in
+      if y <? pl + n0 then c_h c - 1 - y
+      else if y <? pl + n0 + n1 then y - (pl + n0)
+      else n1 + (y - (pl + n0 + n1))
+  end.
+
+Lemma physical_nth c ls y : cfg_ok c -> length ls = c_h c -> y < c_h c ->
+  row_at (physical c ls) (phys c y) = nth y ls [].
+Proof.
+  intros [H4 Hh] Hl Hy. unfold row_at, physical, phys, nheader in *.
+  destruct (c_layout c).
+  - rewrite rev_nth by lia. f_equal. lia.
+  - reflexivity.
+  - set (pl := prompt_lines c) in *. set (n0 := length (c_header c)) in *. set (n1 := length (c_hlines c)) in *.
+    assert (LA : length (firstn n1 (skipn (pl + n0) ls)) = n1) by (rewrite firstn_length, skipn_length; lia).
+    assert (LB : length (skipn (pl + n0 + n1) ls) = c_h c - (pl + n0 + n1)) by (rewrite skipn_length; lia).
+    assert (LC : length (rev (firstn n0 (skipn pl ls))) = n0) by (rewrite rev_length, firstn_length, skipn_length; lia).
+    assert (LD : length (firstn pl ls) = pl) by (rewrite firstn_length; lia).
+    destruct (Nat.ltb_spec y (pl + n0)); [destruct (Nat.ltb_spec y pl)|destruct (Nat.ltb_spec y (pl + n0 + n1))].
+    + (* prompt / info lines: bottom block, reversed *)
+      rewrite app_nth2 by lia. rewrite app_nth2 by lia. rewrite app_nth2 by lia.
+      rewrite rev_nth by lia. rewrite LA, LB, LC, LD. rewrite nth_firstn_lt by lia. f_equal. lia.
+    + (* --header lines *)
+      rewrite app_nth2 by lia. rewrite app_nth2 by lia. rewrite app_nth1 by lia.
+      rewrite rev_nth by (rewrite rev_length in LC; lia). rewrite LA, LB. rewrite rev_length in LC. rewrite LC.
+      rewrite nth_firstn_lt by lia. rewrite nth_skipn_add. f_equal. lia.
+    + (* --header-lines: own window on top *)
+      rewrite app_nth1 by lia. rewrite nth_firstn_lt by lia. rewrite nth_skipn_add. f_equal. lia.
+    + (* list *)
+      rewrite app_nth2 by lia. rewrite app_nth1 by lia. rewrite LA. rewrite nth_skipn_add. f_equal. lia.
+Qed.
+
+Lemma logical_rows_length c v : cfg_ok c -> length (logical_rows c v) = c_h c.
+Proof.
+  intros [H4 Hh]. unfold logical_rows. cbn [length]. rewrite !app_length, !map_length, seq_length, hdr_logical_length.
+  unfold max_items, prompt_lines in *.
+  destruct (c_info c); try destruct (c_sep c); cbn [Nat.eqb length]; lia.
+Qed.
+
+(* the complete statement: the full render is a faithful screen *)
+Theorem render_faithful_proof : forall c v, cfg_ok c -> view_ok c v -> view_wf v -> faithful c v (render c v).
+Proof.
+  intros c v Hc Hv Hw. pose proof (paint_screen_proof c v Hc Hv Hw) as HS.
+  pose proof (logical_rows_length c v Hc) as HL.
+  assert (HP : forall y, y < c_h c -> row_at (render c v) (phys c y) = nth y (logical_rows c v) []).
+  { intros y Hy. unfold render. rewrite HS. now apply physical_nth. }
+  assert (Hpl : 1 <= prompt_lines c) by (unfold prompt_lines; destruct (c_info c); try destruct (c_sep c); lia).
+  destruct Hc as [H4 Hh].
+  assert (Hnh : nheader c = length (c_header c) + length (c_hlines c)) by reflexivity.
+  split; [|split; [|split; [|split]]].
+  - unfold render. rewrite HS. unfold physical.
+    destruct (c_layout c); rewrite ?rev_length; auto.
+    rewrite !app_length, !rev_length, !firstn_length, !skipn_length. lia.
+  - (* prompt row *)
+    unfold shows_prompt. replace (prompt_row c) with (phys c 0).
+    + rewrite HP by lia. reflexivity.
+    + unfold phys, prompt_row. destruct (c_layout c); try lia. destruct (Nat.ltb_spec 0 (prompt_lines c + length (c_header c))); lia.
+  - (* info row *)
+    intros H2. replace (info_row c) with (phys c 1).
+    + rewrite HP by lia. unfold logical_rows. rewrite H2. reflexivity.
+    + unfold phys, info_row. destruct (c_layout c); try lia. destruct (Nat.ltb_spec 1 (prompt_lines c + length (c_header c))); lia.
+  - (* list rows: proved before *)
+    apply rows_faithful_proof; [split; auto|exact Hw].
+  - (* header rows *)
+    assert (Hnth : forall j, j < nheader c ->
+              nth (prompt_lines c + j) (logical_rows c v) [] = header_row_text c (nth j (hdr_logical c) [])).
+    { intros j Hj. unfold logical_rows.
+      change (prompt_row_text c v :: (if prompt_lines c =? 2 then [info_row_text c v] else []) ++ ?x)
+        with (([prompt_row_text c v] ++ (if prompt_lines c =? 2 then [info_row_text c v] else [])) ++ x).
+      assert (Lp : length ([prompt_row_text c v] ++ (if prompt_lines c =? 2 then [info_row_text c v] else [])) = prompt_lines c).
+      { unfold prompt_lines. destruct (c_info c); try destruct (c_sep c); reflexivity. }
+      rewrite app_nth2 by lia. rewrite Lp. replace (prompt_lines c + j - prompt_lines c) with j by lia.
+      rewrite app_nth1 by (rewrite map_length, hdr_logical_length; lia).
+      rewrite (nth_indep _ [] (header_row_text c [])) by (rewrite map_length, hdr_logical_length; lia).
+      apply map_nth. }
+    split; intros k h Hk.
+    + assert (Hlt : k < length (c_header c)) by (apply nth_error_Some; congruence).
+      apply nth_error_nth with (d := []) in Hk.
+      set (j := match c_layout c with LReverse => k | _ => length (c_header c) - 1 - k end).
+      assert (Hj : j < length (c_header c)) by (unfold j; destruct (c_layout c); lia).
+      replace (header_row c k) with (phys c (prompt_lines c + j)).
+      * rewrite HP by lia. rewrite Hnth by lia. f_equal. unfold hdr_logical, j.
+        destruct (c_layout c); rewrite app_nth1 by (rewrite ?rev_length; lia); rewrite ?rev_nth by lia; rewrite <- Hk; f_equal; lia.
+      * unfold phys, header_row, j. destruct (c_layout c); try lia.
+        destruct (Nat.ltb_spec (prompt_lines c + (length (c_header c) - 1 - k)) (prompt_lines c + length (c_header c))); lia.
+    + assert (Hlt : k < length (c_hlines c)) by (apply nth_error_Some; congruence).
+      apply nth_error_nth with (d := []) in Hk.
+      replace (hline_row c k) with (phys c (prompt_lines c + (length (c_header c) + k))).
+      * rewrite HP by lia. rewrite Hnth by lia. f_equal. unfold hdr_logical.
+        destruct (c_layout c); rewrite app_nth2 by (rewrite ?rev_length; lia); rewrite ?rev_length; rewrite <- Hk; f_equal; lia.
+      * unfold phys, hline_row. destruct (c_layout c); try lia.
+        destruct (Nat.ltb_spec (prompt_lines c + (length (c_header c) + k)) (prompt_lines c + length (c_header c))); [lia|].
+        destruct (Nat.ltb_spec (prompt_lines c + (length (c_header c) + k)) (prompt_lines c + length (c_header c) + length (c_hlines c))); lia.
+Qed.
+
+(* ---------- incremental redraws of the rows above the list ---------- *)
+Lemma nth_upd_at_eq {A} y (f : A -> A) l d : y < length l -> nth y (upd_at y f l) d = f (nth y l d).
+Proof. revert y; induction l as [|x l IH]; intros [|y] H; cbn in *; try lia; auto. apply IH. lia. Qed.
+Lemma nth_upd_at_neq {A} y z (f : A -> A) l d : y <> z -> nth z (upd_at y f l) d = nth z l d.
+Proof. revert y z; induction l as [|x l IH]; intros [|y] [|z] H; cbn; auto; try lia. Qed.
+Lemma header_from_nth w hs : forall line scr z, z < line -> nth z (print_header_from w line hs scr) [] = nth z scr [].
+Proof.
+  induction hs as [|h hs IH]; intros line scr z Hz; cbn [print_header_from]; [reflexivity|].
+  rewrite IH by lia. apply nth_upd_at_neq. lia.
+Qed.
+
+Definition line0 (t : term) : row := nth 0 (t_screen t) [].
+Definition line1 (t : term) : row := nth 1 (t_screen t) [].
+(* the header block of the buffer *)
+Definition hdr_seg (c : cfg) (t : term) : list row := firstn (nheader c) (skipn (prompt_lines c) (t_screen t)).
+
+Lemma skipn_skipn_add {A} (l : list A) a b : skipn a (skipn b l) = skipn (b + a) l.
+Proof. revert l; induction b; intros [|x l]; cbn; auto. now destruct a. Qed.
+
+Lemma screen_pieces c (scr : list row) : cfg_ok c -> length scr = c_h c ->
+  scr = firstn (prompt_lines c) scr ++ firstn (nheader c) (skipn (prompt_lines c) scr) ++ skipn (list_start c) scr.
+Proof.
+  intros [H4 Hh] Hl. rewrite <- (firstn_skipn (prompt_lines c) scr) at 1. f_equal.
+  rewrite <- (firstn_skipn (nheader c) (skipn (prompt_lines c) scr)) at 1. f_equal.
+  rewrite skipn_skipn_add. reflexivity.
+Qed.
+
+Lemma firstn_lines c (scr : list row) : 1 <= length scr -> (prompt_lines c = 2 -> 2 <= length scr) ->
+  firstn (prompt_lines c) scr = nth 0 scr [] :: (if prompt_lines c =? 2 then [nth 1 scr []] else []).
+Proof.
+  intros H1 H2. assert (P : prompt_lines c = 1 \/ prompt_lines c = 2)
+    by (unfold prompt_lines; destruct (c_info c); try destruct (c_sep c); auto).
+  destruct P as [P|P]; rewrite P in *; destruct scr as [|a [|b r]]; cbn in *; try lia; auto.
+Qed.
+
+(* the buffer equals the full render of v when its three parts do *)
+Lemma full_from_parts c t v : cfg_ok c -> length (t_screen t) = c_h c ->
+  line0 t = prompt_row_text c v -> (prompt_lines c = 2 -> line1 t = info_row_text c v) ->
+  hdr_seg c t = map (header_row_text c) (hdr_logical c) ->
+  list_seg c t = map (list_slot_text c v) (seq 0 (max_items c)) ->
+  t_screen t = logical_rows c v.
+Proof.
+  intros Hc Hl H0 H1 Hh Hs. pose proof Hc as [H4 Hfit].
+  assert (Hpl : 1 <= prompt_lines c) by (unfold prompt_lines; destruct (c_info c); try destruct (c_sep c); lia).
+  rewrite (screen_pieces c (t_screen t) Hc Hl). unfold logical_rows.
+  rewrite firstn_lines by (unfold nheader in *; lia).
+  unfold hdr_seg in Hh. rewrite Hh. unfold list_seg in Hs.
+  rewrite firstn_all2 in Hs by (rewrite skipn_length; unfold list_start, max_items in *; lia). rewrite Hs.
+  unfold line0, line1 in *. rewrite H0. cbn [app]. f_equal.
+  destruct (Nat.eqb_spec (prompt_lines c) 2) as [E|E]; [rewrite (H1 E)|]; reflexivity.
+Qed.
+
+Definition Hd (c : cfg) : list row := map (header_row_text c) (hdr_logical c).
+Definition above_ok (c : cfg) (t : term) (r0 r1 : row) : Prop :=
+  length (t_screen t) = c_h c /\ line0 t = r0 /\ (prompt_lines c = 2 -> line1 t = r1) /\ hdr_seg c t = Hd c.
+
+(* views that agree on everything the rows above the list show *)
+Definition same_top (v v' : view) : Prop :=
+  v_prompt v = v_prompt v' /\ v_query v = v_query v' /\ v_matches v = v_matches v' /\
+  v_total v = v_total v' /\ v_sel v = v_sel v'.
+Lemma same_top_info c v v' : same_top v v' -> info_text c v = info_text c v'.
+Proof. intros (A & B & C & D & E). unfold info_text. now rewrite C, D, E. Qed.
+Lemma same_top_pt v v' : same_top v v' -> prompt_text v = prompt_text v'.
+Proof. intros (A & B & _). unfold prompt_text. now rewrite A, B. Qed.
+Lemma same_top_prompt_row c v v' : same_top v v' -> prompt_row_text c v = prompt_row_text c v'.
+Proof.
+  intros S. unfold prompt_row_text, info_shown, inline_right_col.
+  now rewrite (same_top_info c v v' S), (same_top_pt v v' S).
+Qed.
+Lemma same_top_info_row c v v' : same_top v v' -> info_row_text c v = info_row_text c v'.
+Proof. intros S. unfold info_row_text. now rewrite (same_top_info c v v' S). Qed.
+
+(* what printPrompt / printInfo do to lines 0 and 1 *)
+Definition prompt_f (c : cfg) (v : view) (r : row) : row :=
+  put 0 (item_text (c_w c - 2) (v_prompt v) ++ v_query v) (clear_from (c_w c) 0 r).
+Definition info0 (c : cfg) (v : view) (r : row) : row :=
+  let w := c_w c in let out := info_text c v in
+  let pos := length (v_prompt v) + length (v_query v) + 1 in
+  match c_info c with
+  | IInline => put pos ([SP; LT; SP] ++ info_tail c (w - (pos + 3) - 1) out) (if c_sep c then r else clear_from w pos r)
+  | IInlineRight =>
+      let newpos := Nat.max pos (w - length out - 3) in
+      let pos1 := if newpos <? w then S newpos else newpos in
+      let pos2 := if pos1 <? w - 1 then S pos1 else pos1 in
+      put pos (repeat SP (newpos - pos) ++ (if newpos <? w then [SP] else []) ++ (if pos1 <? w - 1 then [SP] else [])
+               ++ trim_msg (w - pos2 - 1) out) r
+  | _ => r
+  end.
+Definition info1 (c : cfg) (v : view) (r : row) : row :=
+  let w := c_w c in
+  match c_info c with
+  | IDefault => put 0 ([SP; SP] ++ info_tail c (w - 3) (info_text c v)) (if c_sep c then r else clear_from w 0 r)
+  | IHidden | IInlineRight => if c_sep c then put 0 (repeat DASH (w - 1) ++ [SP]) r else r
+  | IInline => r
+  end.
+
+Section Above.
+  Variable c : cfg.
+  Hypothesis Hc : cfg_ok c.
+
+  Lemma pl_cases : prompt_lines c = 1 \/ prompt_lines c = 2.
+  Proof. unfold prompt_lines; destruct (c_info c); try destruct (c_sep c); auto. Qed.
+
+  Lemma above_redraw t scr r0 r1 : length scr = c_h c -> nth 0 scr [] = r0 -> (prompt_lines c = 2 -> nth 1 scr [] = r1) ->
+    skipn (prompt_lines c) scr = skipn (prompt_lines c) (t_screen t) -> hdr_seg c t = Hd c ->
+    above_ok c (set_draw t scr (t_prev t)) r0 r1.
+  Proof.
+    intros Hl H0 H1 Hk Hh. unfold above_ok, line0, line1, hdr_seg in *. cbn [set_draw t_screen].
+    repeat split; auto. rewrite <- Hh. f_equal. exact Hk.
+  Qed.
+
+  Lemma above_prompt t r0 r1 : above_ok c t r0 r1 -> above_ok c (print_prompt c t) (prompt_f c (t_view t) r0) r1.
+  Proof.
+    intros (Hl & H0 & H1 & Hh). destruct Hc as [H4 Hfit]. pose proof pl_cases as P.
+    assert (L0 : 0 < length (t_screen t)) by (unfold nheader in *; lia).
+    unfold print_prompt. apply above_redraw; auto.
+    - now rewrite upd_at_length.
+    - rewrite nth_upd_at_eq by exact L0. rewrite <- H0. reflexivity.
+    - intros E. rewrite nth_upd_at_neq by lia. now apply H1.
+    - apply upd_at_skipn. lia.
+  Qed.
+
+  Lemma above_info t r0 r1 : above_ok c t r0 r1 ->
+    above_ok c (print_info c t) (info0 c (t_view t) r0) (info1 c (t_view t) r1).
+  Proof.
+    intros (Hl & H0 & H1 & Hh). destruct Hc as [H4 Hfit]. pose proof pl_cases as P.
+    assert (L0 : 0 < length (t_screen t)) by (unfold nheader in *; lia).
+    assert (L1 : prompt_lines c = 2 -> 1 < length (t_screen t)) by (unfold nheader in *; lia).
+    unfold line0, line1 in *. unfold print_info, info0, info1, prompt_lines in *.
+    cbn [t_view v_prompt v_query].
+
+    assert (P2 : forall k, k = 2 -> k = 2 -> True) by auto.
+    destruct (c_info c) eqn:Hi; [| |destruct (c_sep c) eqn:Hs|destruct (c_sep c) eqn:Hs]; apply above_redraw; auto;
+      unfold prompt_lines; rewrite ?Hi, ?Hs.
+    - (* default *) now rewrite upd_at_length.
+    - rewrite nth_upd_at_neq by lia. exact H0.
+    - intros _. rewrite nth_upd_at_eq by (apply L1; reflexivity). rewrite <- (H1 eq_refl). reflexivity.
+    - apply upd_at_skipn. lia.
+    - (* inline *) now rewrite upd_at_length.
+    - rewrite nth_upd_at_eq by exact L0. rewrite <- H0. reflexivity.
+    - discriminate.
+    - apply upd_at_skipn. lia.
+    - (* hidden, separator *) now rewrite upd_at_length.
+    - rewrite nth_upd_at_neq by lia. exact H0.
+    - intros _. rewrite nth_upd_at_eq by (apply L1; reflexivity). rewrite <- (H1 eq_refl). reflexivity.
+    - apply upd_at_skipn. lia.
+    - (* hidden, no separator *) discriminate.
+    - (* inline-right, separator *) now rewrite !upd_at_length.
+    - rewrite nth_upd_at_neq by lia. rewrite nth_upd_at_eq by exact L0. rewrite <- H0. reflexivity.
+    - intros _. rewrite nth_upd_at_eq by (rewrite upd_at_length; apply L1; reflexivity).
+      rewrite nth_upd_at_neq by lia. rewrite <- (H1 eq_refl). reflexivity.
+    - rewrite !upd_at_skipn by lia. reflexivity.
+    - (* inline-right, no separator *) now rewrite upd_at_length.
+    - rewrite nth_upd_at_eq by exact L0. rewrite <- H0. reflexivity.
+    - discriminate.
+    - apply upd_at_skipn. lia.
+  Qed.
+
+  Lemma above_header t r0 r1 : above_ok c t r0 r1 -> above_ok c (print_header c t) r0 r1.
+  Proof.
+    intros (Hl & H0 & H1 & Hh). pose proof Hc as [H4 Hfit]. pose proof pl_cases as P.
+    unfold above_ok, line0, line1, hdr_seg, print_header in *. cbn [set_draw t_screen].
+    assert (Hlen : prompt_lines c + length (hdr_logical c) <= list_start c)
+      by (rewrite hdr_logical_length; unfold list_start; lia).
+    destruct (header_from_keeps (c_w c) (hdr_logical c) (prompt_lines c) (t_screen t) (list_start c) Hlen) as [E1 E2].
+    split; [rewrite E1; exact Hl|]. split; [rewrite header_from_nth by lia; exact H0|].
+    split; [intros E; rewrite header_from_nth by lia; auto|].
+    rewrite (screen_pieces c (t_screen t) Hc Hl).
+    assert (Lp : length (firstn (prompt_lines c) (t_screen t)) = prompt_lines c) by (rewrite firstn_length; unfold nheader in *; lia).
+    set (pre := firstn (prompt_lines c) (t_screen t)) in *.
+    set (olds := firstn (nheader c) (skipn (prompt_lines c) (t_screen t))) in *.
+    assert (Lo : length olds = length (hdr_logical c))
+      by (unfold olds; rewrite firstn_length, skipn_length, hdr_logical_length; unfold nheader in *; lia).
+    clearbody pre olds. rewrite <- Lp.
+    rewrite header_from_app by exact Lo.
+    rewrite skipn_len_app by reflexivity. rewrite firstn_len_app by (rewrite map_length; apply hdr_logical_length).
+    reflexivity.
+  Qed.
+
+  Lemma above_keep t t' r0 r1 : above_ok c t r0 r1 -> length (t_screen t') = c_h c ->
+    firstn (list_start c) (t_screen t') = firstn (list_start c) (t_screen t) -> above_ok c t' r0 r1.
+  Proof.
+    intros (Hl & H0 & H1 & Hh) Hl' Hf. pose proof Hc as [H4 Hfit]. pose proof pl_cases as P.
+    assert (N : forall z, z < list_start c -> nth z (t_screen t') [] = nth z (t_screen t) []).
+    { intros z Hz. rewrite <- (nth_firstn_lt (t_screen t') (list_start c)) by exact Hz.
+      rewrite <- (nth_firstn_lt (t_screen t) (list_start c)) by exact Hz. now rewrite Hf. }
+    unfold above_ok, line0, line1, hdr_seg in *. split; [exact Hl'|].
+    split; [rewrite N by (unfold list_start; lia); exact H0|].
+    split; [intros E; rewrite N by (unfold list_start; lia); auto|].
+    rewrite <- Hh. replace (nheader c) with (list_start c - prompt_lines c) by (unfold list_start; lia).
+    rewrite <- !skipn_firstn_comm. now rewrite Hf.
+  Qed.
+End Above.
+
+(* ---------- values of the rows above the list after a print ---------- *)
+Definition info_fits (c : cfg) (v : view) : Prop :=
+  match c_info c with
+  | IDefault => c_sep c = false \/ length (info_text c v) + 1 < c_w c - 3
+  | IInline => c_sep c = false \/ length (info_text c v) + 1 < c_w c - (length (prompt_text v) + 1 + 3) - 1
+  | _ => True
+  end.
+Definition inline_style (c : cfg) : Prop := c_info c = IInline \/ c_info c = IInlineRight.
+(* a prompt line on which the inline info can be (re)printed: prompt and query in place, blank up to the info column *)
+Definition base0 (c : cfg) (v : view) (r : row) : Prop :=
+  length r = c_w c /\ firstn (length (prompt_text v) + 1) r = pad (length (prompt_text v) + 1) (prompt_text v) /\
+  skipn (c_w c - 1) r = [SP].
+
+Lemma pad_full w s : length s = w -> pad w s = s.
+Proof. intros H. unfold pad. rewrite H, Nat.sub_diag. apply app_nil_r. Qed.
+Lemma trim_msg_fits maxw s : length s <= maxw -> trim_msg maxw s = s.
+Proof. intros H. unfold trim_msg. now apply Nat.leb_le in H as ->. Qed.
+Lemma trim_msg_cut_length maxw s : maxw < length s -> length (trim_msg maxw s) = maxw.
+Proof.
+  intros H. unfold trim_msg. destruct (Nat.leb_spec (length s) maxw); [lia|].
+  rewrite app_length, firstn_length, repeat_length. lia.
+Qed.
+Lemma info_tail_full c maxw out : c_sep c = true -> length out + 1 < maxw -> length (info_tail c maxw out) = maxw + 1.
+Proof.
+  intros Hs Hf. unfold info_tail. rewrite Hs, trim_msg_fits by lia.
+  destruct (Nat.ltb_spec 0 (maxw - length out - 1)); [|lia].
+  rewrite app_length. cbn [length]. rewrite app_length, repeat_length. cbn [length]. lia.
+Qed.
+Lemma skipn_last_pad w y : length y <= w - 1 -> 1 <= w -> skipn (w - 1) (pad w y) = [SP].
+Proof.
+  intros H Hw. unfold pad. rewrite skipn_app, skipn_repeat, (skipn_all2 y) by lia.
+  replace (w - length y - (w - 1 - length y)) with 1 by lia. reflexivity.
+Qed.
+Lemma firstn_pad_app w a x : firstn (length a) (pad w (a ++ x)) = a.
+Proof. unfold pad. rewrite <- app_assoc. now apply firstn_len_app. Qed.
+
+Section Values.
+  Variable c : cfg.
+  Hypothesis Hc : cfg_ok c.
+
+  Lemma prompt_val v r : view_ok c v -> prompt_f c v r = pad (c_w c) (prompt_text v).
+  Proof. intros [V1 _]. unfold prompt_f. now apply prompt_clean. Qed.
+
+  Lemma info1_val v r : length r = c_w c -> info_fits c v -> prompt_lines c = 2 -> info1 c v r = info_row_text c v.
+  Proof.
+    intros Hr Hf Hp. destruct Hc as [H4 _]. unfold info1, info_row_text, info_fits, prompt_lines in *.
+    destruct (c_info c); try discriminate.
+    - destruct (c_sep c) eqn:Hs.
+      + destruct Hf as [Hf|Hf]; [discriminate|].
+        apply put0_any; [exact Hr|]. cbn [app length]. rewrite info_tail_full by auto. lia.
+      + rewrite clear0. apply put0_pad. cbn. lia.
+    - destruct (c_sep c); try discriminate. apply dashes_row; [exact Hr|lia].
+    - destruct (c_sep c); try discriminate. apply dashes_row; [exact Hr|lia].
+  Qed.
+
+  Lemma base0_clean v : view_ok c v -> inline_style c -> base0 c v (pad (c_w c) (prompt_text v)).
+  Proof.
+    intros [V1 V2] Hi. assert (V : length (prompt_text v) + 5 <= c_w c) by (destruct Hi as [E|E]; rewrite E in V2; exact V2).
+    unfold base0. split; [apply pad_exact; lia|]. split; [apply firstn_pad; lia|apply skipn_last_pad; lia].
+  Qed.
+
+  Lemma base0_shown v v' : view_ok c v' -> inline_style c -> prompt_text v' = prompt_text v ->
+    base0 c v (prompt_row_text c v').
+  Proof.
+    intros Hv Hi Hpt. pose proof (prompt_row_length c v' Hc Hv) as Hlen. destruct Hv as [V1 V2].
+    assert (V : length (prompt_text v') + 5 <= c_w c) by (destruct Hi as [E|E]; rewrite E in V2; exact V2).
+    unfold base0. split; [exact Hlen|]. rewrite <- Hpt.
+    unfold prompt_row_text in *. destruct Hi as [E|E]; rewrite E in *.
+    - split.
+      + set (pos := length (prompt_text v') + 1).
+        replace pos with (length (pad pos (prompt_text v'))) at 1 by (apply pad_exact; lia).
+        apply firstn_pad_app.
+      + (* the row is exactly W long and ends with the separator's trailing blank or padding *)
+        set (pos := length (prompt_text v') + 1) in *.
+        set (y := pad pos (prompt_text v') ++ [SP; LT; SP] ++ info_tail c (c_w c - (pos + 3) - 1) (info_text c v')) in *.
+        destruct (Nat.le_gt_cases (length y) (c_w c - 1)) as [Hy|Hy]; [apply skipn_last_pad; lia|].
+        (* full row: info_tail ends with a blank *)
+        assert (Hy' : length y = c_w c) by (rewrite pad_length in Hlen; lia).
+        rewrite pad_full by exact Hy'.
+        unfold y, info_tail.
+        assert (Hpp : length (pad pos (prompt_text v')) = pos) by (apply pad_exact; lia).
+        unfold y in Hy'. rewrite !app_length, Hpp in Hy'. cbn [length] in Hy'.
+        pose proof (trim_msg_length (c_w c - (pos + 3) - 1) (info_text c v')) as Ht.
+        unfold info_tail in Hy'. rewrite app_length in Hy'.
+        destruct (0 <? c_w c - (pos + 3) - 1 - length (info_text c v') - 1) eqn:Hfill; [|cbn [length] in Hy'; lia].
+        apply Nat.ltb_lt in Hfill.
+        rewrite trim_msg_fits in Hy' |- * by lia.
+        destruct (c_sep c); [|cbn [length] in Hy'; lia].
+        set (f := c_w c - (pos + 3) - 1 - length (info_text c v') - 1) in *.
+        replace (pad pos (prompt_text v') ++ [SP; LT; SP] ++ info_text c v' ++ SP :: repeat DASH f ++ [SP])
+          with ((pad pos (prompt_text v') ++ [SP; LT; SP] ++ info_text c v' ++ SP :: repeat DASH f) ++ [SP])
+          by (rewrite <- ?app_assoc; reflexivity).
+        apply skipn_len_app.
+        rewrite !app_length, Hpp. cbn [length]. rewrite repeat_length.
+        cbn [length] in Hy'. rewrite ?app_length, ?repeat_length in Hy'. cbn [length] in Hy'. lia.
+    - unfold info_shown, inline_right_col. rewrite E.
+      set (pos := length (prompt_text v') + 1). set (x := Nat.max pos (c_w c - length (info_text c v') - 3)).
+      assert (x <= c_w c - 3) by (unfold x, pos; lia).
+      destruct (Nat.ltb_spec x (c_w c)); [|lia]. destruct (Nat.ltb_spec (S x) (c_w c - 1)); [|lia].
+      pose proof (trim_msg_length (c_w c - S (S x) - 1) (info_text c v')) as Ht.
+      split.
+      + replace (S (S x)) with (pos + (S (S x) - pos)) by (unfold x; lia).
+        rewrite <- pad_more by (unfold pos; lia). rewrite <- app_assoc.
+        replace pos with (length (pad pos (prompt_text v'))) at 1 by (apply pad_exact; unfold pos; lia).
+        apply firstn_pad_app.
+      + apply skipn_last_pad; [|lia]. rewrite app_length, pad_length. unfold x, pos in *. lia.
+  Qed.
+
+  Lemma info0_val v r : view_ok c v -> inline_style c -> info_fits c v -> base0 c v r -> info0 c v r = prompt_row_text c v.
+  Proof.
+    intros [V1 V2] Hi Hf (Hr & Hfst & Hlast). destruct Hc as [H4 _].
+    assert (V : length (prompt_text v) + 5 <= c_w c) by (destruct Hi as [E|E]; rewrite E in V2; exact V2).
+    assert (Epos : length (v_prompt v) + length (v_query v) + 1 = length (prompt_text v) + 1)
+      by (unfold prompt_text; rewrite app_length; lia).
+    unfold info0, prompt_row_text, info_fits in *. rewrite Epos.
+    set (pos := length (prompt_text v) + 1) in *.
+    destruct Hi as [E|E]; rewrite E in *.
+    - destruct (c_sep c) eqn:Hs.
+      + destruct Hf as [Hf|Hf]; [discriminate|].
+        set (s := [SP; LT; SP] ++ info_tail c (c_w c - (pos + 3) - 1) (info_text c v)).
+        assert (Ls : length s = c_w c - pos).
+        { unfold s. rewrite app_length, info_tail_full by auto. cbn [length]. lia. }
+        unfold put. rewrite Hfst. rewrite skipn_all2 by lia. rewrite app_nil_r.
+        symmetry. apply pad_full. rewrite app_length, pad_length. lia.
+      + unfold clear_from. rewrite Hfst.
+        replace (pad pos (prompt_text v) ++ repeat SP (c_w c - pos)) with (pad (c_w c) (pad pos (prompt_text v)))
+          by (unfold pad at 1; rewrite pad_length; do 2 f_equal; lia).
+        rewrite put_pad by (rewrite ?pad_length; lia). rewrite pad_pad by lia. reflexivity.
+    - unfold info_shown, inline_right_col. rewrite E. fold pos.
+      set (out := info_text c v). set (newpos := Nat.max pos (c_w c - length out - 3)).
+      assert (Hn : newpos <= c_w c - 3) by (unfold newpos, pos; lia).
+      destruct (Nat.ltb_spec newpos (c_w c)); [|lia]. destruct (Nat.ltb_spec (S newpos) (c_w c - 1)); [|lia].
+      set (shown := trim_msg (c_w c - S (S newpos) - 1) out).
+      assert (Lsh : length shown = c_w c - 1 - S (S newpos)).
+      { unfold shown. destruct (Nat.le_gt_cases (length out) (c_w c - S (S newpos) - 1)).
+        - rewrite trim_msg_fits by lia. unfold newpos in *. lia.
+        - rewrite trim_msg_cut_length by lia. lia. }
+      set (s := repeat SP (newpos - pos) ++ [SP] ++ [SP] ++ shown).
+      assert (Ls : pos + length s = c_w c - 1).
+      { unfold s. rewrite !app_length, repeat_length. cbn [length]. unfold newpos in *. lia. }
+      unfold put. rewrite Hfst, Ls, Hlast.
+      assert (Ebody : pad pos (prompt_text v) ++ s = pad (S (S newpos)) (prompt_text v) ++ shown).
+      { unfold s. change [SP] with (repeat SP 1). rewrite !app_assoc.
+        rewrite pad_more by (unfold pos; lia). rewrite pad_more by (unfold pos; lia). rewrite pad_more by (unfold pos; lia).
+        do 2 f_equal. unfold newpos. lia. }
+      rewrite app_assoc, Ebody. symmetry.
+      assert (Lb : length (pad (S (S newpos)) (prompt_text v) ++ shown) = c_w c - 1)
+        by (rewrite app_length, pad_length, Lsh; unfold pos in *; lia).
+      set (body := pad (S (S newpos)) (prompt_text v) ++ shown) in *.
+      unfold pad. rewrite Lb. replace (c_w c - (c_w c - 1)) with 1 by lia. reflexivity.
+  Qed.
+End Values.
+
+(* ---------- incremental = full over the WHOLE buffer ---------- *)
+Lemma same_top_refl v : same_top v v. Proof. repeat split. Qed.
+Lemma same_top_sym v v' : same_top v v' -> same_top v' v.
+Proof. intros (A & B & C & D & E). repeat split; auto. Qed.
+Lemma same_top_trans v v' v'' : same_top v v' -> same_top v' v'' -> same_top v v''.
+Proof. intros (A & B & C & D & E) (A' & B' & C' & D' & E'). repeat split; congruence. Qed.
+Lemma view_ok_same_top c v v' : same_top v v' -> view_ok c v -> view_ok c v'.
+Proof. intros S [V1 V2]. pose proof (same_top_pt v v' S) as Hp. destruct S as (A & _). unfold view_ok. now rewrite <- A, <- Hp. Qed.
+Lemma info_fits_same_top c v v' : same_top v v' -> info_fits c v -> info_fits c v'.
+Proof. intros S. unfold info_fits. now rewrite (same_top_info c v v' S), (same_top_pt v v' S). Qed.
+
+Definition full (c : cfg) (t : term) : Prop := t_screen t = logical_rows c (t_view t).
+Definition u_view (t : term) (u : upd) : view :=
+  mkView (u_prompt u) (u_query u) (u_matches u) (u_total u) (u_cy u) (t_off t) (u_sel u).
+(* a step covers the prompt row / the counter when it asks for them to be redrawn or leaves what they show unchanged *)
+Definition covers_prompt (t : term) (u : upd) : Prop :=
+  rq_prompt (u_reqs u) = true \/ rq_full (u_reqs u) = true \/ (u_prompt u = t_prompt t /\ u_query u = t_query t).
+Definition covers_info (c : cfg) (t : term) (u : upd) : Prop :=
+  rq_info (u_reqs u) = true \/ rq_full (u_reqs u) = true \/ info_text c (u_view t u) = info_text c (t_view t).
+
+Section Whole.
+  Variable txt_of : nat -> str.
+  Variable c : cfg.
+  Hypothesis Hc : cfg_ok c.
+
+  Lemma logical_above t v : t_screen t = logical_rows c v ->
+    above_ok c t (prompt_row_text c v) (info_row_text c v) /\ list_seg c t = map (list_slot_text c v) (seq 0 (max_items c)).
+  Proof.
+    intros E. pose proof (logical_rows_length c v Hc) as HL. pose proof (pl_cases c) as P. pose proof Hc as [H4 Hfit].
+    unfold above_ok, line0, line1, hdr_seg, list_seg. rewrite E.
+    assert (Lp : length (prompt_row_text c v :: (if prompt_lines c =? 2 then [info_row_text c v] else [])) = prompt_lines c)
+      by (destruct P as [P|P]; rewrite P; reflexivity).
+    assert (LH : length (map (header_row_text c) (hdr_logical c)) = nheader c) by (rewrite map_length; apply hdr_logical_length).
+    assert (Sk : skipn (prompt_lines c) (logical_rows c v) =
+                 map (header_row_text c) (hdr_logical c) ++ map (list_slot_text c v) (seq 0 (max_items c))).
+    { unfold logical_rows.
+      change (prompt_row_text c v :: (if prompt_lines c =? 2 then [info_row_text c v] else []) ++
+              map (header_row_text c) (hdr_logical c) ++ map (list_slot_text c v) (seq 0 (max_items c)))
+        with ((prompt_row_text c v :: (if prompt_lines c =? 2 then [info_row_text c v] else [])) ++
+              map (header_row_text c) (hdr_logical c) ++ map (list_slot_text c v) (seq 0 (max_items c))).
+      now apply skipn_len_app. }
+    repeat split.
+    - exact HL.
+    - intros E2. unfold logical_rows. rewrite E2. reflexivity.
+    - rewrite Sk. now apply firstn_len_app.
+    - unfold list_start. rewrite <- skipn_skipn_add, Sk. rewrite skipn_len_app by exact LH.
+      apply firstn_all2. rewrite map_length, seq_length. lia.
+  Qed.
+
+  Lemma info0_id v r : ~ inline_style c -> info0 c v r = r.
+  Proof. intros N. unfold info0, inline_style in *. destruct (c_info c); auto; exfalso; auto. Qed.
+  Lemma prompt_row_plain v : ~ inline_style c -> prompt_row_text c v = pad (c_w c) (prompt_text v).
+  Proof. intros N. unfold prompt_row_text, inline_style in *. destruct (c_info c); auto; exfalso; auto. Qed.
+  Lemma inline_dec : inline_style c \/ ~ inline_style c.
+  Proof. unfold inline_style. destruct (c_info c); auto; right; intros [|]; discriminate. Qed.
+  Lemma is_inline_true : is_inline c = true <-> inline_style c.
+  Proof. unfold is_inline, inline_style. destruct (c_info c); split; auto; try discriminate; intros [|]; discriminate. Qed.
+
+  (* re-printing the info on a line that shows prompt+query (and possibly an older counter) *)
+  Lemma line0_after_info v v0 r : view_ok c v -> info_fits c v ->
+    (r = pad (c_w c) (prompt_text v) \/ (r = prompt_row_text c v0 /\ view_ok c v0 /\ prompt_text v0 = prompt_text v)) ->
+    inline_style c -> info0 c v r = prompt_row_text c v.
+  Proof.
+    intros Hv Hf Hr Hi. apply info0_val; auto.
+    destruct Hr as [->|(-> & Hv0 & Hp)]; [now apply base0_clean|now apply base0_shown].
+  Qed.
+
+  Lemma full_info t : tinv txt_of c t -> full c t -> view_ok c (t_view t) -> info_fits c (t_view t) ->
+    tinv txt_of c (print_info c t) /\ full c (print_info c t).
+  Proof.
+    intros Ht Hf Hv Hfit. destruct (logical_above t _ Hf) as [Ha Hs].
+    destruct (print_info_ok txt_of c t Ht) as [Ht' Hl].
+    split; [exact Ht'|]. pose proof (above_info c Hc t _ _ Ha) as (L & A0 & A1 & Ah).
+    unfold full. change (t_view (print_info c t)) with (t_view t).
+    apply full_from_parts; auto.
+    - rewrite A0. destruct inline_dec as [Hi|Hn].
+      + eapply line0_after_info; eauto.
+      + now apply info0_id.
+    - intros E. rewrite (A1 E). apply info1_val; auto. now apply info_row_length.
+    - now rewrite Hl.
+  Qed.
+
+  Lemma print_list_view t : same_top (t_view (print_list c t)) (t_view t).
+  Proof. unfold print_list. destruct (constrain _ _ _ _ _). repeat split. Qed.
+  Lemma full_redraw_view t : same_top (t_view (full_redraw c t)) (t_view t).
+  Proof. unfold full_redraw. destruct (constrain _ _ _ _ _). repeat split. Qed.
+
+  Lemma full_redraw_full t : coherent txt_of (t_matches t) -> view_ok c (t_view t) -> full c (full_redraw c t).
+  Proof.
+    intros Hm Hv. pose proof (full_redraw_view t) as S. unfold full, full_redraw in *.
+    destruct (constrain _ _ _ _ _) as [cy off].
+    pose proof (paint_screen_term txt_of c (set_scroll t cy off) Hc) as HP.
+    destruct (paint_ok txt_of c Hc (set_scroll t cy off) Hm) as (_ & _ & Vw).
+    rewrite Vw. apply HP; auto.
+  Qed.
+
+  Lemma step_full t u : tinv txt_of c t -> fresh c t -> full c t ->
+    coherent txt_of (u_matches u) -> covers_list t u -> covers_prompt t u -> covers_info c t u ->
+    view_ok c (t_view t) -> view_ok c (u_view t u) -> info_fits c (u_view t u) ->
+    full c (step c t u).
+  Proof.
+    intros Ht Hfr Hf Hm Hcl Hcp Hci Hv0 Hv Hfit.
+    destruct (step_ok txt_of c Hc t u Ht Hfr Hm Hcl) as (T' & F' & Co').
+    unfold step, handle in *.
+    set (t1 := mkTerm (u_prompt u) (u_query u) (u_matches u) (u_total u) (u_cy u) (t_off t) (u_sel u) (t_screen t) (t_prev t)) in *.
+    assert (V1 : t_view t1 = u_view t u) by reflexivity.
+    assert (T1 : tinv txt_of c t1) by exact Ht.
+    assert (M1 : coherent txt_of (t_matches t1)) by exact Hm.
+    destruct (logical_above t _ Hf) as [Ha0 _].
+    assert (Ha1 : above_ok c t1 (prompt_row_text c (t_view t)) (info_row_text c (t_view t))) by exact Ha0.
+    (* stage 1: prompt *)
+    set (t2 := if rq_prompt (u_reqs u) then print_prompt c t1 else t1) in *.
+    assert (S2 : tinv txt_of c t2 /\ coherent txt_of (t_matches t2) /\ t_view t2 = u_view t u /\
+                 above_ok c t2 (if rq_prompt (u_reqs u) then pad (c_w c) (prompt_text (u_view t u)) else prompt_row_text c (t_view t))
+                               (info_row_text c (t_view t))).
+    { unfold t2. destruct (rq_prompt (u_reqs u)).
+      - destruct (print_prompt_ok txt_of c t1 T1) as [A _].
+        split; [exact A|]. split; [exact M1|]. split; [reflexivity|].
+        rewrite <- (prompt_val c (u_view t u) (prompt_row_text c (t_view t)) Hv). rewrite <- V1. now apply above_prompt.
+      - split; [exact T1|]. split; [exact M1|]. split; [reflexivity|exact Ha1]. }
+    destruct S2 as (T2 & M2 & V2 & Ha2).
+    (* stage 2: header *)
+    set (t3 := if rq_header (u_reqs u) then print_header c t2 else t2) in *.
+    assert (S3 : tinv txt_of c t3 /\ coherent txt_of (t_matches t3) /\ t_view t3 = u_view t u /\
+                 above_ok c t3 (if rq_prompt (u_reqs u) then pad (c_w c) (prompt_text (u_view t u)) else prompt_row_text c (t_view t))
+                               (info_row_text c (t_view t))).
+    { unfold t3. destruct (rq_header (u_reqs u)); [|auto].
+      destruct (print_header_ok txt_of c t2 T2) as [A _].
+      split; [exact A|]. split; [exact M2|]. split; [exact V2|]. now apply above_header. }
+    destruct S3 as (T3 & M3 & V3 & Ha3).
+    (* stage 3: list *)
+    set (t4 := if rq_list (u_reqs u) then print_list c t3 else t3) in *.
+    assert (S4 : tinv txt_of c t4 /\ coherent txt_of (t_matches t4) /\ same_top (t_view t4) (u_view t u) /\
+                 above_ok c t4 (if rq_prompt (u_reqs u) then pad (c_w c) (prompt_text (u_view t u)) else prompt_row_text c (t_view t))
+                               (info_row_text c (t_view t))).
+    { unfold t4. destruct (rq_list (u_reqs u)).
+      - destruct (print_list_ok txt_of c Hc t3 T3 M3) as (A & _ & Mm & _).
+        split; [exact A|]. split; [now rewrite Mm|]. split; [rewrite <- V3; apply print_list_view|].
+        eapply above_keep; [exact Hc|exact Ha3|apply A|].
+        unfold print_list. destruct (constrain _ _ _ _ _) as [cy off].
+        destruct (print_list_at_ok txt_of c Hc (set_scroll t3 cy off) T3 M3) as (_ & _ & _ & Ab). exact Ab.
+      - split; [exact T3|]. split; [exact M3|]. split; [rewrite V3; apply same_top_refl|exact Ha3]. }
+    destruct S4 as (T4 & M4 & V4 & Ha4).
+    assert (Hv4 : view_ok c (t_view t4)) by (eapply view_ok_same_top; [apply same_top_sym; exact V4|exact Hv]).
+    assert (Hf4 : info_fits c (t_view t4)) by (eapply info_fits_same_top; [apply same_top_sym; exact V4|exact Hfit]).
+    destruct (rq_full (u_reqs u)) eqn:RF.
+    - (* full redraw, possibly followed by the info *)
+      pose proof (full_redraw_full t4 M4 Hv4) as F5. pose proof (full_redraw_view t4) as V5.
+      destruct (full_redraw_ok txt_of c Hc t4 M4) as (T5 & _ & _ & _).
+      destruct (rq_info (u_reqs u) || rq_prompt (u_reqs u) && is_inline c); [|exact F5].
+      apply full_info; auto.
+      + eapply view_ok_same_top; [apply same_top_sym; exact V5|exact Hv4].
+      + eapply info_fits_same_top; [apply same_top_sym; exact V5|exact Hf4].
+    - (* incremental *)
+      destruct (rq_info (u_reqs u) || rq_prompt (u_reqs u) && is_inline c) eqn:FL.
+      + (* info printed *)
+        pose proof (above_info c Hc t4 _ _ Ha4) as (L & A0 & A1 & Ah).
+        unfold full. change (t_view (print_info c t4)) with (t_view t4).
+        apply full_from_parts; auto.
+        * rewrite A0. destruct inline_dec as [Hi|Hn].
+          -- apply (line0_after_info (t_view t4) (t_view t)); auto.
+             destruct (rq_prompt (u_reqs u)) eqn:RP.
+             ++ left. now rewrite (same_top_pt _ _ V4).
+             ++ right. split; [reflexivity|]. split; [exact Hv0|].
+                destruct Hcp as [X|[X|(E1 & E2)]]; try congruence.
+                rewrite (same_top_pt _ _ V4). unfold prompt_text, u_view. cbn [v_prompt v_query t_view]. congruence.
+          -- rewrite info0_id by exact Hn. rewrite !prompt_row_plain by exact Hn.
+             destruct (rq_prompt (u_reqs u)) eqn:RP.
+             ++ now rewrite (same_top_pt _ _ V4).
+             ++ destruct Hcp as [X|[X|(E1 & E2)]]; try congruence.
+                rewrite (same_top_pt _ _ V4). unfold prompt_text, u_view. cbn [v_prompt v_query t_view]. congruence.
+        * intros E. rewrite (A1 E). apply info1_val; auto. now apply info_row_length.
+      + (* nothing printed on the info: the counter text is unchanged *)
+        apply orb_false_iff in FL as [RI FL2].
+        assert (Hinfo : info_text c (t_view t4) = info_text c (t_view t)).
+        { rewrite (same_top_info c _ _ V4). destruct Hci as [X|[X|X]]; congruence. }
+        destruct Ha4 as (L & A0 & A1 & Ah).
+        unfold full. apply full_from_parts; auto.
+        * rewrite A0. destruct (rq_prompt (u_reqs u)) eqn:RP.
+          -- (* prompt repainted without the info: only for the styles that keep it elsewhere *)
+             assert (Hn : ~ inline_style c) by (intros Hi; apply is_inline_true in Hi; rewrite Hi in FL2; discriminate).
+             rewrite prompt_row_plain by exact Hn. now rewrite (same_top_pt _ _ V4).
+          -- assert (Hp : prompt_text (t_view t4) = prompt_text (t_view t)).
+             { destruct Hcp as [X|[X|(E1 & E2)]]; try congruence.
+               rewrite (same_top_pt _ _ V4). unfold prompt_text, u_view. cbn [v_prompt v_query t_view]. congruence. }
+             unfold prompt_row_text, info_shown, inline_right_col. now rewrite Hinfo, Hp.
+        * intros E. rewrite (A1 E). unfold info_row_text. now rewrite Hinfo.
+  Qed.
+
+  Lemma handle_view rq t : same_top (t_view (handle c rq t)) (t_view t).
+  Proof.
+    unfold handle.
+    set (t2 := if rq_prompt rq then print_prompt c t else t).
+    assert (S2 : same_top (t_view t2) (t_view t)) by (unfold t2; destruct (rq_prompt rq); apply same_top_refl).
+    set (t3 := if rq_header rq then print_header c t2 else t2).
+    assert (S3 : same_top (t_view t3) (t_view t2)) by (unfold t3; destruct (rq_header rq); apply same_top_refl).
+    set (t4 := if rq_list rq then print_list c t3 else t3).
+    assert (S4 : same_top (t_view t4) (t_view t3)) by (unfold t4; destruct (rq_list rq); [apply print_list_view|apply same_top_refl]).
+    set (t5 := if rq_full rq then full_redraw c t4 else t4).
+    assert (S5 : same_top (t_view t5) (t_view t4)) by (unfold t5; destruct (rq_full rq); [apply full_redraw_view|apply same_top_refl]).
+    assert (S6 : same_top (t_view (if rq_info rq || rq_prompt rq && is_inline c then print_info c t5 else t5)) (t_view t5))
+      by (destruct (rq_info rq || rq_prompt rq && is_inline c); apply same_top_refl).
+    eapply same_top_trans; [exact S6|]. eapply same_top_trans; [exact S5|]. eapply same_top_trans; [exact S4|].
+    eapply same_top_trans; [exact S3|exact S2].
+  Qed.
+
+  Lemma step_view t u : same_top (t_view (step c t u)) (u_view t u).
+  Proof. unfold step. eapply same_top_trans; [apply handle_view|apply same_top_refl]. Qed.
+
+  (* a history whose every step covers what it changes, keeps the query inside the prompt row and the counter
+     inside its row (info_fits: with a separator the text must leave room for it, see incremental_eq_full_refuted) *)
+  Fixpoint hist_ok_full (t : term) (us : list upd) : Prop :=
+    match us with
+    | [] => True
+    | u :: r => coherent txt_of (u_matches u) /\ covers_list t u /\ covers_prompt t u /\ covers_info c t u /\
+                view_ok c (u_view t u) /\ info_fits c (u_view t u) /\ hist_ok_full (step c t u) r
+    end.
+
+  Lemma run_full us : forall t, tinv txt_of c t -> fresh c t -> full c t -> coherent txt_of (t_matches t) ->
+    view_ok c (t_view t) -> hist_ok_full t us ->
+    full c (run c t us) /\ coherent txt_of (t_matches (run c t us)) /\ view_ok c (t_view (run c t us)).
+  Proof.
+    induction us as [|u r IH]; intros t Ht Hfr Hf Hco Hv Hh; cbn [run fold_left]; [auto|].
+    destruct Hh as (Hm & Hcl & Hcp & Hci & Hvu & Hfu & Hr).
+    destruct (step_ok txt_of c Hc t u Ht Hfr Hm Hcl) as (T' & F' & Co').
+    pose proof (step_full t u Ht Hfr Hf Hm Hcl Hcp Hci Hv Hvu Hfu) as Fu.
+    apply IH; auto. eapply view_ok_same_top; [apply same_top_sym, step_view|exact Hvu].
+  Qed.
+
+  Theorem incremental_eq_full_proof v0 us : coherent txt_of (v_matches v0) -> view_ok c v0 ->
+    hist_ok_full (start c v0) us ->
+    t_screen (run c (start c v0) us) = t_screen (paint c (run c (start c v0) us)).
+  Proof.
+    intros Hm Hv Hh. unfold start in *.
+    destruct (full_redraw_ok txt_of c Hc (term_of_view v0) Hm) as (T & F & M & _).
+    assert (Hv0 : view_ok c (t_view (term_of_view v0))) by exact Hv.
+    pose proof (full_redraw_full (term_of_view v0) Hm Hv0) as Fl.
+    assert (Co : coherent txt_of (t_matches (full_redraw c (term_of_view v0)))) by (rewrite M; exact Hm).
+    assert (Hv1 : view_ok c (t_view (full_redraw c (term_of_view v0))))
+      by (eapply view_ok_same_top; [apply same_top_sym, full_redraw_view|exact Hv0]).
+    destruct (run_full us _ T F Fl Co Hv1 Hh) as (Ff & Cf & Vf).
+    rewrite (paint_screen_term txt_of c _ Hc Vf Cf). exact Ff.
+  Qed.
+End Whole.
